@@ -9,11 +9,13 @@ def run(prog, rep, tier):
                   "the decoder of its DWARF 5 class (string/reference/signed/unsigned/address/flag/location/ranges/attribute-dependent) or reports "
                   "it; F5: DW_ATE_* -> signed/unsigned/bool; F4: the 13 enumerated attributes are rendered in the constant family DWARF assigns them "
                   "(joined with the writer tables' prefixes); E1: each of the 82 calls to a fallible libdw/libdwfl/libelf function has its result "
-                  "compared, tested, returned or stored before use (two exemption rows with reasons).")
+                  "compared, tested, returned or stored before use (two exemption rows with reasons); F6: the flags that summarise the enumerator scan "
+                  "(signedness from the forms of all enumerators) are monotone inside the loop.")
     rep.not_decided = ("the decoded values themselves (bytes of strings, target of references, boundary values, signedness taken from the type "
                        "chain at run time), and vendor attributes in DW_AT_lo_user..hi_user, which the code deliberately decodes as unsigned.")
     rep.assumptions.append("DWARF 5 tables 7.5/7.6 (form classes) and 7.11 (base type encodings) as transcribed in rules/r_dw.py")
     apply(rep, "F1", "unknown form/attribute/encoding is an error", r_dw.f1(prog), 3)
     apply(rep, "F3", "form/encoding/enumerated-attribute dispatch agrees with DWARF 5", r_dw.f3(prog), 60)
     apply(rep, "E1", "no libdw error result is dropped", r_dw.e1(prog), 50)
+    apply(rep, "F6", "scan-summary flags deciding signedness are only ever set inside the scan", r_dw.f6(prog), 2)
     maybe_mutants("C07", rep, tier)
